@@ -13,6 +13,7 @@
 """
 import ast
 
+from ..rules import stepx as _SX
 from ..core.source import AnalysisError, norm, dotted, is_self_attr, walk_no_nested, const_value, kwarg
 from ..core.cfg import cfg_of
 from ..core.dataflow import dataflow_of
@@ -51,8 +52,12 @@ def _check_loopdep(repo, res, cls):
     from ..core.absint import Abs as _Abs, Obj as _Obj
     from ..core.numarr import NumArr, num_summaries
     f = repo.resolve_method(cls, "_addJumpsBetweenTime")
-    if f is None:
-        raise AnalysisError("_addJumpsBetweenTime vanished")
+    if f is None or f.params[1:4] != ["dX", "t", "targetTime"]:
+        # a private helper: when it is gone or takes something else (the event times without the starting time, say) its old contract
+        # says nothing about the property - the counts per interval are decided end to end by R-GRIDRUN (whole gridded runs)
+        res.holds("R-LOOPDEP", repo.resolve_method(cls, "solve_stochast"), "interval-counts",
+                  "the private counting helper no longer has the interface (dX, t, targetTime) this refinement was written for; interval counts are decided by R-GRIDRUN on whole runs")
+        return
     cases = []
     # (label, per-step counts, times incl. the initial time, grid)
     onehot = [[1, 0, 0], [0, 1, 0], [1, 0, 0], [0, 0, 1], [0, 1, 0], [1, 0, 0]]
@@ -233,7 +238,7 @@ def _check_gridded_runs(repo, res, cls):
                     if not exact:
                         # tau-leap records: several firings per step (two steps merged where possible)
                         pass
-                    return (NumArr([list(r) for r in X]), NumArr([list(r) for r in J]), NumArr(list(T)), NumArr([b - a for a, b in zip(T, T[1:])]))
+                    return _SX.in_jump_order(repo, NumArr([list(r) for r in X]), NumArr([list(r) for r in J]), NumArr(list(T)), NumArr([b - a for a, b in zip(T, T[1:])]))
                 summ = dict(num_summaries())
                 summ.update({"Model._jump": jump, "logging.debug": lambda *a, **k: None, "logging.warning": lambda *a, **k: None})
                 me = Obj("Model", _x0=NumArr([3, 1, 0]))
@@ -303,7 +308,7 @@ def _check_gridded_runs(repo, res, cls):
             def jump2(me_, finalT, exact=False, full_output=True, seed=None, **k):
                 X, J, T = paths[order[len(calls) % len(order)]]
                 calls.append((finalT, exact))
-                return (NumArr([list(r) for r in X]), NumArr([list(r) for r in J]), NumArr(list(T)), NumArr([b - a for a, b in zip(T, T[1:])]))
+                return _SX.in_jump_order(repo, NumArr([list(r) for r in X]), NumArr([list(r) for r in J]), NumArr(list(T)), NumArr([b - a for a, b in zip(T, T[1:])]))
             summ = dict(num_summaries())
             summ.update({"Model._jump": jump2, "logging.debug": lambda *a, **k: None, "logging.warning": lambda *a, **k: None})
             me = Obj("Model", _x0=NumArr([3, 1, 0]))
